@@ -163,7 +163,9 @@ def r3_space_shifts(ctx):
         ("ej[strip_col] = 1.0", "e_j is the stripped basis vector"),
     ]
     for needle, what in checks:
-        ctx.check(needle in src, "C10.R3", f, f.node, what, f"Householder construction changed: `{needle}` not found ({what})", construct=what)
+        # the semantic content (scale invariance of the basis, hence gauge invariance of the space shifts) is decided by R2, which
+        # interprets this function; here only the confirmed shape is recorded: another shape is `unknown`, not a violation
+        ctx.anchor(needle in src, "C10.R3", f, f.node, what, f"`{needle}`", construct=what)
 
 
 def rules(ctx):
